@@ -50,4 +50,90 @@ def parseZ (t : String) : Option (Option Nat) :=
 def showMsg (m : Msg) : String :=
   "ok " ++ toString m.cmd.toNat ++ " " ++ toHexTok m.payload ++ " " ++ toString m.seqno
 
+/-! ## stateful driver shared by C01 and C02: one toy sender, one toy receiver, one socket
+
+    reset
+    cfgout <cfg> | cfgin <cfg> | zout <z|-> | zin <z|-> | seqout <n> | seqin <n> | kexout <0|1> | kexin <0|1>   → ok
+    send <payloadhex> <rndhex>      → <wirehex> | err:<kind>            (sender)
+    feed <hex> | rem <hex>          → ok                                (bytes that will arrive | `__remainder`)
+    read <sched>                    → ok <cmd> <payloadhex> <seqno> | err:<kind>     (`read_message`)
+    readall <n> <sched>             → <hex> | err:<kind>                (`read_all(n)`, n may be negative)
+  sched: `-` or comma separated naturals (0 = socket.timeout, k = recv returns at most k bytes)
+-/
+
+structure DSt where
+  s : Sender toyPrims := {}
+  r : Receiver toyPrims := {}
+  rem : Bytes := []
+  data : Bytes := []
+
+def parseSched (t : String) : Option (List Nat) :=
+  if t == "-" then some [] else (t.splitOn ",").mapM String.toNat?
+
+def driverStep (st : DSt) (line : String) : DSt × String :=
+  match words line with
+  | ["reset"] => ({}, "ok")
+  | ["cfgout", c] =>
+    match parseCfg c with
+    | some c => ({ st with s := st.s.setCipher c.block c.macLen c.sdctr c.out }, "ok")
+    | none => (st, "bad-op")
+  | ["cfgin", c] =>
+    match parseCfg c with
+    | some c => ({ st with r := st.r.setCipher c.block c.macLen c.inn }, "ok")
+    | none => (st, "bad-op")
+  | ["zout", z] =>
+    match parseZ z with
+    | some z => ({ st with s := { st.s with comp := z } }, "ok")
+    | none => (st, "bad-op")
+  | ["zin", z] =>
+    match parseZ z with
+    | some z => ({ st with r := { st.r with decomp := z } }, "ok")
+    | none => (st, "bad-op")
+  | ["seqout", n] =>
+    match n.toNat? with
+    | some n => ({ st with s := { st.s with seq := n } }, "ok")
+    | none => (st, "bad-op")
+  | ["seqin", n] =>
+    match n.toNat? with
+    | some n => ({ st with r := { st.r with seq := n } }, "ok")
+    | none => (st, "bad-op")
+  | ["kexout", b] =>
+    match bool? b with
+    | some b => ({ st with s := { st.s with kexDone := b } }, "ok")
+    | none => (st, "bad-op")
+  | ["kexin", b] =>
+    match bool? b with
+    | some b => ({ st with r := { st.r with kexDone := b } }, "ok")
+    | none => (st, "bad-op")
+  | ["send", pl, rnd] =>
+    match ofHex? pl, ofHex? rnd with
+    | some pl, some rnd =>
+      match sendMessage st.s pl rnd with
+      | .ok o => ({ st with s := o.st }, toHexTok o.wire)
+      | .error e => (st, "err:" ++ errName e)
+    | _, _ => (st, "bad-op")
+  | ["feed", h] =>
+    match ofHex? h with
+    | some b => ({ st with data := st.data ++ b }, "ok")
+    | none => (st, "bad-op")
+  | ["rem", h] =>
+    match ofHex? h with
+    | some b => ({ st with rem := b }, "ok")
+    | none => (st, "bad-op")
+  | ["read", sc] =>
+    match parseSched sc with
+    | some sc =>
+      match runSock (readMessage st.r) ⟨st.rem, st.data, sc⟩ with
+      | .ok o sk => ({ st with r := o.st, rem := sk.rem, data := sk.data }, showMsg o.msg)
+      | .err e => (st, "err:" ++ errName e)
+    | none => (st, "bad-op")
+  | ["readall", n, sc] =>
+    match intOfString? n, parseSched sc with
+    | some n, some sc =>
+      match readAll ⟨st.rem, st.data, sc⟩ n with
+      | .ok (b, sk) => ({ st with rem := sk.rem, data := sk.data }, toHexTok b)
+      | .error e => (st, "err:" ++ errName e)
+    | _, _ => (st, "bad-op")
+  | _ => (st, "bad-op")
+
 end PV.Packet
